@@ -30,9 +30,24 @@ def exported_slacks(dev, x, shape_row=False):
     out.append(('bounds[%d].low' % k, x[k] - b[k, 0])); out.append(('bounds[%d].high' % k, b[k, 1] - x[k]))
   xx = x.reshape(1, -1) if shape_row else x
   for i, c in enumerate(dev.constraints):
-    v = G.scalar(c['fun'](xx))
-    out.append(('constraints[%d](%s)' % (i, c['type']), v if c['type'] == 'ineq' else -abs(v)))
+    vs = np.asarray(c['fun'](xx), dtype=float).reshape(-1)      # a vector-valued fun is one slack per component (scipy semantics)
+    if vs.size == 0:
+      raise ValueError('constraint function returned no value')
+    for j, v in enumerate(vs):
+      name = 'constraints[%d]%s(%s)' % (i, '[%d]' % j if vs.size > 1 else '', c['type'])
+      out.append((name, float(v) if c['type'] == 'ineq' else -abs(float(v))))
   return out
+
+
+OWNERS = ('Device', 'SDevice', 'ADevice')
+
+
+def constraints_owner(dev):
+  """the class whose `constraints` property the device resolves to (T1 translates those of OWNERS only)."""
+  for klass in type(dev).__mro__:
+    if 'constraints' in klass.__dict__:
+      return klass.__name__
+  return None
 
 
 def worst(sl):
@@ -54,12 +69,12 @@ class C03(Prop):
                 'DK.BridgeVec.SDevice_constraints_fun2', 'DK.BridgeVec.SDevice_constraints_fun3',
                 'DK.BridgeVec.SDevice_constraints_fun4', 'DK.BridgeVec.SDevice_constraints_jac4']      # T1v: vector method bodies (vk/translate_vec.py, DK/Lemmas/BridgeVec.lean)
   bridge = bridge_vec + ['DK.BridgeSets.Device_constraints', 'DK.BridgeSets.SDevice_constraints']   # T1s LeafCons: the whole constraint lists
-  rule = ('every atomic class x horizon n (1..8 quick plus 5 % from {12,16,24,25,31,48}; ..60 thorough; 25 % of prices, interior flows and cost parameters are non-dyadic decimals) x cumulative-bound form (none, 2-tuple, one 4-tuple whole/sub-range, '
-          'several contiguous, several overlapping, nested; CDevice2 default) x storage (efficiency/sustainment =1 and <1, rate_clip absent / None / scalar k / '
-          '(k, None) / (None, k) / (k1, k2) with k1 != k2, reserve 0 and >0; 12 %: parameter changed through its setter after a first read of .constraints) x ADevice user constraints (eq/ineq, with/without jac); probes: interior, box vertices, '
+  rule = ('every atomic class (plus the unmodelled WindowDevice, oracle only) x horizon n (1..8 quick plus 5 % from {12,16,24,25,31,48}; ..60 thorough; 25 % of prices, interior flows and cost parameters are non-dyadic decimals) x cumulative-bound form (none, 2-tuple, one 4-tuple whole/sub-range, '
+          'several contiguous, several overlapping, nested; CDevice2 default; rows written as tuples / lists / integer ndarrays in a list or tuple; 30 % with a limit off the dyadic grid by k/10^7) x storage (efficiency/sustainment =1 and <1, rate_clip absent / None / scalar k / '
+          '(k, None) / (None, k) / (k1, k2) with k1 != k2 in either order, as tuple / list / ndarray, reserve 0 and >0; 12 %: parameter changed through its setter after a first read of .constraints) x ADevice user constraints (eq/ineq, with/without jac, with a harmless extra dict key, vector-valued with one slack per slot); probes: interior, box vertices, '
           'exactly on a cumulative limit, 1/64 inside/outside it, outside the box, storage over/under-fill, plus one all-integer flow passed as an INTEGER-typed array; flows presented as (n,) or (1, n); the list taken from the first or the second read of .constraints. non-trivial: >= 1 cumulative '
           'bound or storage, and the probes fall on both sides of >= 1 documented constraint')
-  sizes = {'quick': 1200, 'thorough': 8000}
+  sizes = {'quick': 1000, 'thorough': 8000}
   assumptions = ['T2 compares, per exported constraint, (type, value at each probe flow), as a multiset: each model row is paired with the nearest unused implementation row (no rounding, no sort key)',
                  'oracle membership tolerance: member iff every slack >= -1e-9*scale; a disagreement counts only if the other side is beyond 1e-8*scale',
                  'oracle semantics are taken from the case description (bounds, cbounds, storage parameters, user constraints as data), '
@@ -77,14 +92,20 @@ class C03(Prop):
       # glue: one all-integer flow handed over as an INTEGER-typed array; the list as a second read of .constraints returns it
       case['iprobe'] = [str(v) for v in G.int_flow(rng, [C.F(x) for x in d['lb']], [C.F(x) for x in d['hb']])]
       case['_reads'] = rng.choice([1, 2])
+      if d['cls'] == 'WindowDevice':
+        case['oracle_only'] = True          # no model of this class: the membership oracle alone speaks
+      if any(u.get('_noflat') is not None for u in (d.get('ucons') or [])):
+        case['_shape'] = 'flat'             # (family user_fun_shape: the other checks present the vector the user fun was written for)
       out.append(case)
-    G.prefetch([self.line(c) for c in out])
+    G.prefetch([self.line(c) for c in out if not c.get('oracle_only')])
     return out
 
   def line(self, case):
     return {'op': 'cons.leaf', 'dev': case['dev'], 'probes': list(case['probes']) + ([case['iprobe']] if case.get('iprobe') else []), 'jac': False}
 
   def ops(self, case):
+    if case.get('oracle_only'):
+      return []
     d = case['dev']
     dev = G.build_dev(d, 'dev')
     P = [shaped(case, x) for x in flows(case)]
@@ -107,14 +128,36 @@ class C03(Prop):
     np = G.np()
     d = case['dev']; n = d['n']; cls = d['cls']
     tag = case.get('tag', {})
-    for k in ('cform', 'rate_clip', 'lossy', 'leaky', 'reread'):
+    self.hist[('cls', cls)] = self.hist.get(('cls', cls), 0) + 1
+    for k in ('cform', 'crows', 'climit', 'rate_clip', 'lossy', 'leaky', 'reread', 'ucons'):
       if k in tag:
         self.hist[(k, str(tag[k]))] = self.hist.get((k, str(tag[k])), 0) + 1
-    dev = G.build_dev(d, 'dev')
     fails = []
     key = lambda kind: {'cls': cls, 'kind': kind}
+    try:
+      dev = G.build_dev(d, 'dev')
+    except Exception as e:
+      py = d.get('_py', {})
+      return [{'key': key('construction-raises'), 'detail': '%s n=%d: constructing the device (cbounds %s as %s rows, prm %s, rate_clip form %s) raised %s: %s'
+               % (cls, n, d.get('cbs'), py.get('crows', 'tuple'), d.get('prm') if cls == 'SDevice' else '-', py.get('rcform'), type(e).__name__, str(e)[:160])}]
     rr = d.get('_py', {}).get('reread')
     ctx = (' [device built with %s=%s, .constraints read once, then %s set to %s through its setter]' % (rr[0], rr[1], rr[0], d['prm'][rr[0]])) if rr else ''
+    owner = constraints_owner(dev)
+    relabel = (lambda kind: kind) if owner in OWNERS else (lambda kind: 'constraints-overridden')
+    octx = '' if owner in OWNERS else ' [%s.constraints resolves to an override in class %s, which the T1 translation does not read]' % (cls, owner)
+    # a user constraint written for the flow VECTOR must see the same flow alone and as a row of a set
+    for u, c in zip(d.get('ucons') or [], [c for c in dev.constraints][2*len(d.get('cbs') or []):]):
+      if u.get('_noflat') is not None:
+        x0 = np.array([(C.pf(a) + C.pf(b))/2 for a, b in zip(d['lb'], d['hb'])])
+        va = np.asarray(c['fun'](x0))
+        try:
+          vr = np.asarray(c['fun'](x0.reshape(1, -1)))
+        except Exception as e:
+          vr = np.array('raises %s' % type(e).__name__)
+        if va.shape != vr.shape or vr.dtype.kind == 'U' or not np.allclose(va, vr):
+          fails.append({'key': key('user-constraint-shape'), 'detail': 'ADevice n=%d: the user constraint `lambda x: x[%d]*w + c` gives %s for the flow vector %s and %s '
+                        'for the same flow as the (1, n) row a DeviceSet passes' % (n, u['_noflat'], va.tolist(), x0.tolist(), vr.tolist())})
+          return fails
     # reported attributes against the description
     want_cb = [(C.pf(c[0]), C.pf(c[1]), int(c[2]), int(c[3])) for c in (d.get('cbs') or [])]
     got_cb = [tuple(float(v) if i < 2 else int(v) for i, v in enumerate(c)) for c in (dev.cbounds or [])]
@@ -143,7 +186,8 @@ class C03(Prop):
         x = [u + mid*(v - u) for u, v in zip(a, b)]
         if worst(spec(x))[1] >= 0: lo = mid
         else: hi = mid
-      for t in (lo - 1e-4, lo + 1e-4, lo - 1e-6, lo + 1e-6):
+      d_ab = max(1e-12, max(abs(v - u) for u, v in zip(a, b)))
+      for t in [lo + s_*eps/d_ab for eps in (1e-4, 1e-6, 2e-7) for s_ in (-1, 1)]:
         if 0 <= t <= 1:
           probes.append([u + t*(v - u) for u, v in zip(a, b)])
     row = case.get('_shape') == 'row'
@@ -174,14 +218,14 @@ class C03(Prop):
       scale = max(1.0, max(abs(v) for v in x))
       we, ws = worst(ex), worst(sp)
       if we[1] >= -ACCEPT*scale and ws[1] < -FIRM*scale:
-        fails.append({'key': key('accepts-infeasible'),
+        fails.append({'key': key(relabel('accepts-infeasible')),
                       'detail': '%s n=%d: flow %s satisfies the exported bounds+constraints (worst slack %.3g at %s) but violates the documented '
-                                'constraint %s by %.6g' % (cls, n, x, we[1], we[0], ws[0], -ws[1]) + ctx})
+                                'constraint %s by %.6g' % (cls, n, x, we[1], we[0], ws[0], -ws[1]) + ctx + octx})
         break
       if ws[1] >= -ACCEPT*scale and we[1] < -FIRM*scale:
-        fails.append({'key': key('rejects-feasible'),
+        fails.append({'key': key(relabel('rejects-feasible')),
                       'detail': '%s n=%d: flow %s satisfies every documented constraint (worst slack %.3g at %s) but the exported %s is violated by %.6g'
-                                % (cls, n, x, ws[1], ws[0], we[0], -we[1]) + ctx})
+                                % (cls, n, x, ws[1], ws[0], we[0], -we[1]) + ctx + octx})
         break
       if cls == 'SDevice':
         rep = np.asarray(dev.charge_at(xa), dtype=float).reshape(-1)
